@@ -36,11 +36,14 @@ type callSpec struct {
 }
 
 type cmdScn struct {
-	Name       string     `json:"name"`
-	Terms      []termSpec `json:"terminals"`
-	Calls      []callSpec `json:"calls"`
-	FailWrites bool       `json:"fail_writes,omitempty"`
-	Disconnect bool       `json:"disconnect,omitempty"` // C13 oracle (callers may get any error)
+	Name  string     `json:"name"`
+	Terms []termSpec `json:"terminals"`
+	Calls []callSpec `json:"calls"`
+	// SeqCalls: each list is performed by ONE caller thread, one call after the other, re-using a single
+	// *ActiveMessage object (command, body and timeout are overwritten between calls, as a caller may do)
+	SeqCalls   [][]callSpec `json:"sequential_calls,omitempty"`
+	FailWrites bool         `json:"fail_writes,omitempty"`
+	Disconnect bool         `json:"disconnect,omitempty"` // C13 oracle (callers may get any error)
 }
 
 type cmdRun struct {
@@ -149,6 +152,37 @@ func cmdMake(scn cmdScn) func() (func(), any) {
 				ts := ts
 				vs.GoNamed(fmt.Sprintf("term%d", i), false, func() { r.runTerminal(ts) })
 			}
+			for li, list := range scn.SeqCalls {
+				list := list
+				var recs []*callRec
+				for k, c := range list {
+					cr := r.w.newCall(fmt.Sprintf("seqcaller%d.%d", li, k), c.Key, c.Cmd)
+					cr.TimeoutMs = c.TimeoutMs
+					recs = append(recs, cr)
+				}
+				var ts *termState
+				for _, t := range r.terms {
+					if len(list) > 0 && ref.PhoneString(ref.BCD(t.spec.Phone, 10)) == list[0].Key {
+						ts = t
+					}
+				}
+				vs.GoNamed(fmt.Sprintf("seqcaller%d", li), false, func() {
+					if ts != nil {
+						vs.Block(&vs.Op{Kind: "hwait-joined", W: joinedWaiter{ts}})
+					}
+					am := service.NewActiveMessage("", 0, nil, 0)
+					for k, c := range list {
+						am.Key, am.Command, am.Body, am.OverTimeDuration = c.Key, consts.JT808CommandType(c.Cmd), cmdBody(c.Cmd), time.Duration(c.TimeoutMs)*time.Millisecond
+						recs[k].begin()
+						m := r.w.srv.SendActiveMessage(am)
+						var s snap
+						if m != nil {
+							s = takeSnap(m)
+						}
+						recs[k].end(m, s)
+					}
+				})
+			}
 			for i, c := range scn.Calls {
 				c := c
 				var ts *termState
@@ -158,6 +192,7 @@ func cmdMake(scn cmdScn) func() (func(), any) {
 					}
 				}
 				cr := r.w.newCall(fmt.Sprintf("caller%d", i), c.Key, c.Cmd)
+				cr.TimeoutMs = c.TimeoutMs
 				vs.GoNamed(cr.Name, false, func() {
 					if ts != nil && !c.NoWait {
 						vs.Block(&vs.Op{Kind: "hwait-joined", W: joinedWaiter{ts}})
@@ -209,6 +244,31 @@ func (r *cmdRun) runTerminal(ts *termState) {
 		return
 	case "reset-after-join":
 		closeNow(true)
+		return
+	}
+	if sp.Behaviour == "prompt" {
+		// answer every command as soon as it has been written (needed when a caller sends sequentially)
+		answeredN := 0
+		n := nReplies
+		for answeredN < sp.Expect {
+			n++
+			out := p.Expect(n)
+			if p.C.Closed() && len(out) < n {
+				return
+			}
+			k := 0
+			for _, o := range out {
+				if f, err := ref.Decode(o.Data); err == nil && isCommandID(f.ID) && !o.Failed {
+					k++
+					if k > answeredN {
+						ts.saw(f)
+						p.Send(responseTo(f, f.Serial, next()))
+						ts.markAnswered(f.Serial)
+						answeredN++
+					}
+				}
+			}
+		}
 		return
 	}
 	// wait for the commands
@@ -424,6 +484,8 @@ func cmdCheck(res *vs.Result, user any) []vs.Violation {
 			if ts.answered[pf.Serial] == 0 && !ts.late {
 				add("phantom-response", fmt.Sprintf("%s got a response although the terminal never answered serial %d", c.Name, pf.Serial))
 			}
+		case errors.Is(err, service.ErrWriteDataOverTime) && c.TimeoutMs > 0 && c.ClockDone-c.ClockStart < int64(c.TimeoutMs)*1e6:
+			add("timeout-too-early", fmt.Sprintf("%s (command serial %d, timeout %d ms) was given a timeout after only %d ms of virtual time: a timer that is not its own completed it", c.Name, pf.Serial, c.TimeoutMs, (c.ClockDone-c.ClockStart)/1e6))
 		case errors.Is(err, service.ErrWriteDataOverTime):
 			// a timeout is always admissible when timers may fire at any moment, except in
 			// executions where no timer ran ahead of a runnable thread: then an answered command must see its answer
